@@ -64,7 +64,7 @@ func genTable(conc bool) func(r *prng) *plan {
 			case 10:
 				p.Ops = append(p.Ops, opSpec{K: "delete", N: []int64{node}})
 			case 11, 12, 13:
-				p.Ops = append(p.Ops, opSpec{K: "beh", N: []int64{node, int64(r.intn(6))}})
+				p.Ops = append(p.Ops, opSpec{K: "beh", N: []int64{node, int64(r.intn(10))}})
 			case 14, 15:
 				p.Ops = append(p.Ops, opSpec{K: "wait", N: []int64{int64(200 + r.intn(12000))}})
 			case 16, 17, 18:
@@ -276,6 +276,7 @@ type tableSim struct {
 	gen            map[enode.ID]int // generation of the table entry (bumped on every add to a bucket)
 	opIdx          int
 	inDB           map[enode.ID]bool
+	enrLost        map[enode.ID]bool
 }
 
 type hookEv struct {
@@ -298,13 +299,18 @@ const (
 	behNewEndpoint
 	behSlowAlive
 	behSlowDead
+	behSlowNewSeq      // slow answer announcing a newer record (can arrive after the table learnt an even newer one)
+	behSlowNewEndpoint // same with a changed endpoint
+	behLyingSeq        // announces a high sequence number, then serves a record that is not newer
+	behNewSeqEnrLost   // answers the ping announcing a newer record, but the record request is lost
+	behCount
 )
 
 func runTable(seed uint64, engine string, conc bool) {
 	p := loadOrGenPlan(engine, seed, genTable(conc))
 	w := newWorld(seed, "C07", engine)
 	w.res.Class = map[bool]string{true: "concurrent", false: "serial"}[conc]
-	ts := &tableSim{w: w, p: p, beh: map[enode.ID]int{}, fails: map[string]int{}, serial: !conc, gen: map[enode.ID]int{}, inDB: map[enode.ID]bool{}}
+	ts := &tableSim{w: w, p: p, beh: map[enode.ID]int{}, fails: map[string]int{}, serial: !conc, gen: map[enode.ID]int{}, inDB: map[enode.ID]bool{}, enrLost: map[enode.ID]bool{}}
 	rs := newPrng(seed ^ 0x7ab1e)
 	var selfID enode.ID
 	copy(selfID[:], rs.bytes(32))
@@ -360,16 +366,28 @@ func runTable(seed uint64, engine string, conc bool) {
 		PingFn: func(n *enode.Node) (uint64, error) {
 			b := ts.beh[n.ID()]
 			ev := pingEv{id: n.ID(), gen: ts.gen[n.ID()], seqAtPing: n.Seq()}
-			if b == behSlowAlive || b == behSlowDead {
-				time.Sleep(time.Duration(300+int(n.ID()[31])*3) * time.Millisecond)
+			if b == behSlowAlive || b == behSlowDead || b == behSlowNewSeq || b == behSlowNewEndpoint {
+				time.Sleep(time.Duration(300+int(n.ID()[31])*30) * time.Millisecond)
 			}
 			switch b {
 			case behDead, behSlowDead:
 				ts.pings = append(ts.pings, ev)
 				return 0, errors.New("timeout")
-			case behNewSeqSameEndpoint, behNewEndpoint:
+			case behNewSeqEnrLost:
+				ev.responded = true // the liveness check itself succeeded
+				ts.enrLost[n.ID()] = true
+				ts.pings = append(ts.pings, ev)
+				return n.Seq() + 1, nil
+			case behLyingSeq:
+				// PONG claims a much newer record; the ENR actually served has the old sequence number
+				// (and another port): it must not replace the stored record
+				ev.responded = true
+				ev.newRec = nullNode(n.ID(), n.IP(), n.UDP()+7, n.Seq())
+				ts.pings = append(ts.pings, ev)
+				return n.Seq() + 5, nil
+			case behNewSeqSameEndpoint, behNewEndpoint, behSlowNewSeq, behSlowNewEndpoint:
 				ip, port := n.IP(), n.UDP()
-				if b == behNewEndpoint {
+				if b == behNewEndpoint || b == behSlowNewEndpoint {
 					port = port + 1
 				}
 				ev.responded = true
@@ -382,6 +400,10 @@ func runTable(seed uint64, engine string, conc bool) {
 			return n.Seq(), nil
 		},
 		RequestENRFn: func(n *enode.Node) (*enode.Node, error) {
+			if ts.enrLost[n.ID()] {
+				delete(ts.enrLost, n.ID())
+				return nil, errors.New("RPC timeout")
+			}
 			// the record announced by the ping
 			for i := len(ts.pings) - 1; i >= 0; i-- {
 				if ts.pings[i].id == n.ID() && ts.pings[i].newRec != nil {
